@@ -299,5 +299,7 @@ func buildIntrinsics() map[string]intrinsic {
 	addStubIntrinsics(t)
 	addHashIntrinsics(t)
 	addNetIntrinsics(t)
+	addHavocIntrinsics(t)
+	addHTTPIntrinsics(t)
 	return t
 }
